@@ -188,13 +188,24 @@ func ruleC08(c *Ctx) {
 			ai := t.Vals[0]
 			want := map[string]string{"NameID": a0 + ".Subject.NameID.Value", "Assertions": resp + ".Assertions"}
 			atoms := t.atoms()
-			if atoms["!("+a0+".AuthnStatement == nil)"] {
+			// every accepting path looks at the AuthnStatement: a summary returned without deciding whether there is one
+			// silently drops SessionIndex / AuthnInstant / SessionNotOnOrAfter for some inputs
+			hasAS, noAS := atoms["!("+a0+".AuthnStatement == nil)"], atoms[a0+".AuthnStatement == nil"]
+			if !hasAS && !noAS {
+				c.bad("C08-R2", fname, "AuthnStatement considered on every accepting path", pos, "an accepting path returns the summary without testing whether the first assertion has an AuthnStatement: its session fields are dropped on this path")
+			}
+			if hasAS {
 				want["SessionIndex"] = a0 + ".AuthnStatement.SessionIndex"
-				if atoms["!("+a0+".AuthnStatement.AuthnInstant == nil)"] {
-					want["AuthnInstant"] = a0 + ".AuthnStatement.AuthnInstant"
-				}
-				if atoms["!("+a0+".AuthnStatement.SessionNotOnOrAfter == nil)"] {
-					want["SessionNotOnOrAfter"] = a0 + ".AuthnStatement.SessionNotOnOrAfter"
+				for _, f := range []string{"AuthnInstant", "SessionNotOnOrAfter"} {
+					src := a0 + ".AuthnStatement." + f
+					switch {
+					case atoms["!("+src+" == nil)"]:
+						want[f] = src
+					case atoms[src+" == nil"]:
+						// absent in the signed statement: nothing to copy
+					default:
+						want[f] = src // copied without a nil test
+					}
 				}
 			}
 			for f, w := range want {
